@@ -278,6 +278,37 @@ def property_obligations(prop):
     return res
 
 
+def coqchk_summary(prop):
+    """Thorough tier: re-check the compiled property file and everything it depends on with the
+    independent checker and return its context summary (axioms, type-in-type, unsafe fixpoints,
+    assumed positivity).  Cached by the content of the .vo files."""
+    vo = os.path.join(COQ, "Properties", prop + ".vo")
+    if not os.path.exists(vo):
+        return {"ran": False, "reason": "no compiled property file"}
+    key = sha([p[:-2] + ".vo" for p in coq_files() if os.path.exists(p[:-2] + ".vo")])
+    cache = os.path.join(BUILD, f".coqchk.{prop}.{key}.json")
+    if os.path.exists(cache):
+        return json.load(open(cache))
+    t0 = time.time()
+    rc, out = sh(f"timeout 3000 coqchk -o -silent -Q . Yarl Yarl.Properties.{prop} 2>&1", cwd=COQ, timeout=3100)
+    res = {"ran": True, "rc": rc, "seconds": round(time.time() - t0, 1), "summary": {}}
+    for label, name in (("Axioms", "axioms"), ("Constants/Inductives relying on type-in-type", "type_in_type"),
+                        ("Constants/Inductives relying on unsafe (co)fixpoints", "unsafe_fixpoints"),
+                        ("Inductives whose positivity is assumed", "assumed_positivity")):
+        m = re.search(r"\* " + re.escape(label) + r":\s*(.*?)(?=\n\s*\n\*|\Z)", out, re.S)
+        res["summary"][name] = " ".join(m.group(1).split()) if m else "?"
+    res["clean"] = rc == 0 and all(v == "<none>" for v in res["summary"].values())
+    if not res["clean"]:
+        res["tail"] = out[-1500:]
+    for f in os.listdir(BUILD):
+        if f.startswith(f".coqchk.{prop}."):
+            os.remove(os.path.join(BUILD, f))
+    if rc == 0:
+        with open(cache, "w") as f:
+            json.dump(res, f)
+    return res
+
+
 # ----------------------------------------------------------------------------------
 # oracles (real libraries, consulted by the extracted model on demand)
 # ----------------------------------------------------------------------------------
@@ -603,7 +634,7 @@ def finish(ctx, obligations, trusted_base, level_note_assumptions, rule):
             "known_finding_hits": ctx.known_hits,
             "backends": ["py"] + (["c"] if ctx.c_ok else []),
             "build": {k: ctx.report.get(k) for k in
-                      ("make_rc", "driver_rc", "build_s", "tables_differ_from_pinned", "tables_error", "model_gen_errors", "forbidden")},
+                      ("make_rc", "driver_rc", "build_s", "tables_differ_from_pinned", "tables_error", "model_gen_errors", "forbidden", "coqchk")},
             "notes": ctx.notes,
         },
         "assumptions": level_note_assumptions,
